@@ -182,7 +182,9 @@ CHECKS = {
          "dropping a timer future removes exactly its key; Timeout::poll yields the inner output iff the inner future is ready and "
          "Elapsed only when the timer is no longer pending; the Interval::tick state machine (coroutine MIR, <= 2 polls) returns "
          "start on the first tick and afterwards an instant in (now, now+period] with next - start = multiple of the period + period, "
-         "armed as exactly one timer, never completing before it fired.",
+         "armed as exactly one timer, never completing before it fired; Runtime::poll hands the driver no time limit iff no timer is "
+         "pending and otherwise at most the distance to the nearest deadline, and processes the wheel after the wait whatever "
+         "its outcome.",
     design_ref="DESIGN.md §1 C09",
     note="Summaries (BTreeMap, Instant, Waker contracts) are assumptions; the interpreter is validated each run against the natively "
          "compiled runtime.rs (real clock) on seeded random histories; counterexamples are converted to histories and replayed "
